@@ -583,7 +583,22 @@ fn write_replay(prop: &PropDef, tier: Tier, seed: u64, idx: u64, class: &str, v:
     path
 }
 
+/// scratch directories left behind by workers that were killed (watchdog, interrupted run)
+fn sweep_stale_scratch() {
+    if let Ok(rd) = std::fs::read_dir("/dev/shm") {
+        for e in rd.flatten() {
+            let name = e.file_name().to_string_lossy().to_string();
+            if let Some(pid) = name.strip_prefix("clarabel-verif-sim-") {
+                if !std::path::Path::new(&format!("/proc/{}", pid)).exists() {
+                    std::fs::remove_dir_all(e.path()).ok();
+                }
+            }
+        }
+    }
+}
+
 fn run_main(args: &[String]) -> i32 {
+    sweep_stale_scratch();
     let prop = find_prop(&args[0]);
     let mut tier = std::env::var("VERIF_TIER")
         .map(|t| Tier::parse(&t))
@@ -946,5 +961,8 @@ fn main() {
         }
         _ => 2,
     };
+    // this process' scratch directory (workers remove theirs too; a killed one is
+    // swept by the next parent)
+    std::fs::remove_dir_all(format!("/dev/shm/clarabel-verif-sim-{}", std::process::id())).ok();
     std::process::exit(code);
 }
